@@ -1324,8 +1324,14 @@ class RealFloat(numbers.Rational):
 
         # step 6. check if rounding was exact (if so, we're done)
         if lost.is_zero():
-            # just choose one of the rounding modes (RTZ)
-            rand_rm = RoundingMode.RTZ
+            # the extended-precision value has no digit at or below `n`:
+            # either `self` is representable (the mode is irrelevant), or the
+            # rounding to the extra digits already landed on a neighbour;
+            # every draw must then agree with the side it landed on
+            if abs(xr) > abs(self):
+                rand_rm = RoundingMode.RAZ
+            else:
+                rand_rm = RoundingMode.RTZ
         else:
             # step 7. normalize `lost` so that `lost.n == n_rand`
             offset = lost._exp - (n_rand + 1)
